@@ -790,6 +790,7 @@ BAD_HEADERS = [
     ("int {v} = 0; ; ++{v}", "k,0,x,-,-,k,inc,-,-"),                        # no check
     ("int {v} = 0; {v} + 2; ++{v}", "k,0,o,-,-,k,inc,-,-"),                 # not a comparison
     ("int {v} = 0; {v} == 2; ++{v}", "k,0,o,-,-,k,inc,-,-"),
+    ("int {v} = 4; {v} != 0; --{v}", "k,4,o,-,-,k,dec,-,-"),
     ("int {v} = 0; N < 2; ++{v}", "k,0,i,lt,-,k,inc,-,-"),                  # other variable compared
     ("int {v} = 0; {v} < 2; ", "k,0,k,lt,2,x,-,-,l"),                       # no update
     ("int {v} = 0; {v} < 2; {v} *= 2", "k,0,k,lt,2,o,-,-,l"),               # operator
@@ -1320,3 +1321,25 @@ def compile_and_run(ck, tag, tus, run_envs=None, timeout=1800):
             res[name].append((env, rc, so, se if rc != -999 else se + "\nrun timeout"))
     ck.cov["counters"]["exec_dir"] = d
     return res
+
+
+def t_op_multi(Ks, expect):
+    """several @kernel functions in one source (kernelsAreValid has to check every one of them)"""
+    return "T %s %s %s" % (expect, hexs("\n".join(K.src() for K in Ks)), "+".join(K.ir() for K in Ks))
+
+
+def sibling_outer_kernels(r):
+    """@outer{ @outer{@inner..} @outer{@inner..} }: sibling nested @outer loops below one outer-most loop; the valid one has
+    the same @inner depth in both, the invalid one a deeper nest in one of them (in a random position)"""
+    def nest(tag, depth):
+        k = [Stmt("acc[0] += 1", basic=True)]
+        for d in range(depth):
+            k = [simple_inner(r, "i%s%d" % (tag, d), kids=k)]
+        return simple_outer(r, "o" + tag, kids=k)
+    d = r.choice([1, 2])
+    ARGS = ["const int N", "const int M", "const int *in", "int *out", "int *acc"]
+    n = r.choice([2, 3])
+    good = Kernel("k", ARGS, [simple_outer(r, "o", kids=[nest(chr(97 + j), d) for j in range(n)])])
+    bad_at = r.randrange(n)
+    bad = Kernel("k", ARGS, [simple_outer(r, "o", kids=[nest(chr(97 + j), d + (1 if j == bad_at else 0)) for j in range(n)])])
+    return good, bad
